@@ -332,22 +332,27 @@ def run(prog, ctx):
     r_assign = None
     tdeep_sm = Terms(sm.node, max_depth=12)
     ls_calls = R.calls_in(sm.node, method="lstsq")
-    if ls_calls and len(ls_calls[0].args) >= 2:
-        # roles from the solve call: lstsq(<left-hand side>, <right-hand side>)
-        la, ra = ls_calls[0].args[0], ls_calls[0].args[1]
+    r_parts_all = []
+    for lsc in [x for x in ls_calls if len(x.args) >= 2]:
+        # roles from the solve call: lstsq(<left-hand side>, <right-hand side>); the call may stand once behind the choice of the
+        # left-hand side or once in each branch of it
+        la, ra = lsc.args[0], lsc.args[1]
         if isinstance(la, ast.Name):
             for b_ in tdeep_sm.env.bindings.get(la.id, []):
-                if b_.kind == "assign" and b_.value is not None:
+                if b_.kind == "assign" and b_.value is not None and not any(b_.stmt is st_ for (st_, _lp) in l_assigns):
                     lp = _left_parts(tdeep_sm.term(b_.value))
                     if lp is not None and lp["reg"] is not None:
                         l_assigns.append((b_.stmt, lp))
         else:
             lp = _left_parts(tdeep_sm.term(la))
             if lp is not None and lp["reg"] is not None:
-                l_assigns.append((ls_calls[0], lp))
+                l_assigns.append((lsc, lp))
         rp = _right_parts(tdeep_sm.term(ra))
-        if rp is not None:
-            r_assign = (ls_calls[0], rp)
+        r_parts_all.append(rp)
+        if rp is not None and r_assign is None:
+            r_assign = (lsc, rp)
+    if r_assign is not None and any(rp is None or rp != r_assign[1] for rp in r_parts_all):
+        r_assign = None                               # the solve calls disagree on the right-hand side
     ctx.floor("C20.D2.dw", len(l_assigns) + (1 if r_assign else 0), 3, "normal-equation sites (dimension-wise)")
     for k, (st, lp) in enumerate(l_assigns):
         same = r_assign is not None and lp["factor"] == r_assign[1]["factor"] and lp["A"] == r_assign[1]["A"]
